@@ -1,7 +1,6 @@
 use tevec::prelude::*;
 fn main() {
-    let v = vec![3., f64::NAN, 1.];
-    let r: Vec<f64> = v.vpartition(4, true, false).collect_trusted_to_vec(); println!("vpartition(4,sort) = {:?}", r);
-    let r: Vec<f64> = v.vpartition(4, false, false).collect_trusted_to_vec(); println!("vpartition(4,nosort) = {:?}", r);
-    let r: Vec<i32> = v.varg_partition(4, true, false).collect_trusted_to_vec(); println!("varg_partition(4,sort) = {:?}", r);
+    let v = vec![f64::NAN, 3., f64::NAN];
+    println!("quantile 0.5 of [NaN,3,NaN] = {:?}", v.vquantile(0.5, QuantileMethod::Linear));
+    println!("median = {:?}", v.vmedian());
 }
